@@ -231,7 +231,15 @@ class SymbolGraph(metaclass=SingletonMeta):
         self._class_to_wrapped_instances[wrapped_instance.instance_type].remove(
             wrapped_instance
         )
-        self._instance_graph.remove_node(wrapped_instance.index)
+        # forget the relations of the node, its index is handed out again by the graph
+        index = wrapped_instance.index
+        for source, target, relation in list(
+            self._instance_graph.in_edges(index)
+        ) + list(self._instance_graph.out_edges(index)):
+            self._relation_index.get(relation.wrapped_field, set()).discard(
+                (source, target)
+            )
+        self._instance_graph.remove_node(index)
 
     def remove_dead_instances(self):
         for node in self._instance_graph.nodes():
